@@ -122,17 +122,6 @@ theorem fix_value (l : FixLit) (S : Nat) (h : l.scale ≤ S) :
   congr 1
   rw [Int.add_mul, Int.add_mul, Int.mul_assoc (l.fractional : Int), hpow, Int.mul_right_comm]
 
-theorem scaled_lt (frac scale S : Nat) (h : scale ≤ S) (hf : frac < 10 ^ scale) :
-    scaleFractional frac scale S = frac * 10 ^ (S - scale) ∧ frac * 10 ^ (S - scale) < 10 ^ S := by
-  have hp : (10 : Nat) ^ S = 10 ^ scale * 10 ^ (S - scale) := by rw [← Nat.pow_add]; congr 1; omega
-  constructor
-  · unfold scaleFractional
-    by_cases he : scale ≥ S
-    · have : scale = S := by omega
-      simp [this]
-    · simp [he, Nat.mul_comm]
-  · rw [hp]; exact Nat.mul_lt_mul_of_pos_right hf (Nat.pow_pos (by decide))
-
 /-- **Rejection.**  A fixed-point literal (with `frac` written in `scale` digits) is accepted iff it
     has at most the type's number of fractional digits and its raw value is within the type's
     bounds; too many digits is a scale error, out of bounds is a range error.  An accepted value
